@@ -712,3 +712,55 @@ Example store_stop_reachable :
                       ++ map AH [HStop; HStop; HStop; HServe; HStop] ++ [AStopStore]) (sysinit true) in
   sy_closed s = true /\ sy_panic s = false.
 Proof. vm_compute. auto. Qed.
+
+(* ---- the metrics server *)
+Definition minv (s : mstate) : Prop := m_bound s = true -> m_reg s = true /\ m_shut s = false.
+
+Lemma mstep_inv s e : minv s -> minv (mstep s e).
+Proof.
+  unfold minv; destruct s as [sh b r d], e; cbn; intros H.
+  - destruct sh; cbn; [destruct r; cbn; intros Hb; [destruct (H Hb) as [_ Hs]; discriminate Hs | discriminate Hb] | auto].
+  - destruct r; cbn; intros Hb; [discriminate Hb | destruct (H Hb) as [Hr _]; discriminate Hr].
+Qed.
+
+Lemma mrun_inv_from sched s : minv s -> minv (fold_left mstep sched s).
+Proof. revert s; induction sched as [|e sched IH]; cbn; intros s H; [exact H | apply IH, mstep_inv, H]. Qed.
+
+Lemma mshut_stays sched s : m_shut s = true -> m_shut (fold_left mstep sched s) = true.
+Proof.
+  revert s; induction sched as [|e sched IH]; cbn; intros s H; [exact H|].
+  apply IH. destruct e; cbn; [rewrite H; reflexivity | reflexivity].
+Qed.
+
+Lemma mdone_stays sched s : m_done s = true -> m_done (fold_left mstep sched s) = true.
+Proof.
+  revert s; induction sched as [|e sched IH]; cbn; intros s H; [exact H|].
+  apply IH. destruct e; cbn; [destruct (m_shut s); cbn; exact H | reflexivity].
+Qed.
+
+(* whatever the goroutine did before Stop and does after it: once Stop has completed the port is not bound, and never again *)
+Theorem metrics_stop_closes :
+  forall before after, let s := mrun false (before ++ MStop :: after) in m_done s = true /\ m_bound s = false.
+Proof.
+  intros before after; unfold mrun; rewrite fold_left_app; cbn [fold_left].
+  set (s0 := fold_left mstep before (minit false)).
+  assert (H0 : minv s0) by (apply mrun_inv_from; unfold minv; cbn; discriminate).
+  set (s1 := mstep s0 MStop).
+  assert (H1 : minv s1) by (apply mstep_inv, H0).
+  assert (Hs : m_shut s1 = true) by reflexivity.
+  split; [apply mdone_stays; reflexivity|].
+  pose proof (mrun_inv_from after s1 H1) as Hf.
+  pose proof (mshut_stays after s1 Hs) as Hsf.
+  destruct (m_bound (fold_left mstep after s1)) eqn:Hb; [|reflexivity].
+  destruct (Hf Hb) as [_ Hc]; rewrite Hsf in Hc; discriminate Hc.
+Qed.
+
+(* the eager variant: Stop before the goroutine ran delivers with the port bound *)
+Theorem metrics_eager_bind_refuted :
+  exists sched, let s := mrun true sched in m_done s = true /\ m_bound s = true.
+Proof. exists [MStop]; vm_compute; auto. Qed.
+
+Example metrics_stop_reachable :
+  (let s := mrun false [MListen; MStop; MListen] in m_done s = true /\ m_bound s = false) /\
+  m_bound (mrun false [MListen]) = true /\ m_bound (mrun true [MStop; MListen]) = false.
+Proof. vm_compute; auto. Qed.
